@@ -33,7 +33,11 @@ func (e *Engine) mirror(op *COp, res Result) *Violation {
 			case "new":
 				r = sh.S.Apply(&COp{Kind: "new", Variant: "NewEntity", Rel: -1})
 				if r.Panicked || r.Ent != res.Ent {
-					return e.sv(sh, op, "creation after load issued %v (panic=%v %s), the source world issued %v", r.Ent, r.Panicked, r.Msg, res.Ent)
+					v := e.sv(sh, op, "creation after load issued %v (panic=%v %s), the source world issued %v", r.Ent, r.Panicked, r.Msg, res.Ent)
+					if !r.Panicked && (e.M.Issued[r.Ent] || r.Ent.IsZero()) {
+						v.Also = append(v.Also, "handle") // C02: a handle issued before is issued again after LoadEntities
+					}
+					return v
 				}
 				e.St.Probes["load-twin-handles-compared"]++
 			case "newbatch":
@@ -335,6 +339,21 @@ func (e *Engine) opDump(c *cursor) *Violation {
 		}
 	}
 	e.Shadows = keep
+	if v := e.loadHandleProbe(&d2); v != nil {
+		return v
+	}
+	// EntityDump.Alive is documented as the alive IDs in query iteration order
+	{
+		q := w.Query(ecs.All())
+		order := collect(&q)
+		same := len(order) == len(d.Alive)
+		for i := 0; same && i < len(order); i++ {
+			same = order[i].ID() == d.Alive[i]
+		}
+		if !same {
+			return e.viol("dump-diff", nil, "EntityDump.Alive is not the alive set in query iteration order: %v vs query order %v", d.Alive, order)
+		}
+	}
 	for _, ls := range []*Sys{l1, l2} {
 		if v := e.checkLoadAgainst(ls, &d); v != nil {
 			return v
@@ -344,6 +363,80 @@ func (e *Engine) opDump(c *cursor) *Violation {
 		e.Shadows = append(e.Shadows, &Shadow{S: l1, Kind: "load"}, &Shadow{S: l2, Kind: "load"})
 	}
 	return nil
+}
+
+// loadHandleProbe (C02 after LoadEntities): a scratch world loaded from the dump answers Alive like the model for
+// every ledger handle, and the handles it issues next are new: never issued before, never twice, never sharing
+// an ID with an alive entity, and the number of alive entities stays creations minus removals.
+func (e *Engine) loadHandleProbe(d *ecs.EntityDump) *Violation {
+	pw := ecs.NewWorld(ecs.NewConfig().WithCapacityIncrement(1 + e.step%7))
+	mk := func(format string, args ...interface{}) *Violation {
+		v := &Violation{Class: "handle", Step: e.step, World: "load", Msg: "after LoadEntities: " + fmt.Sprintf(format, args...)}
+		v.Also = append(v.Also, "dump-diff")
+		return v
+	}
+	var msg string
+	func() {
+		defer func() {
+			if r := recover(); r != nil {
+				msg = fmt.Sprint(r)
+			}
+		}()
+		pw.LoadEntities(d)
+	}()
+	if msg != "" {
+		return nil // reported by the caller's own load
+	}
+	var v *Violation
+	func() {
+		defer func() {
+			if r := recover(); r != nil {
+				v = mk("probe panicked: %v", r)
+			}
+		}()
+		for _, me := range e.M.Alive {
+			if !pw.Alive(me.H) {
+				v = mk("%v is alive in the source world but not in the loaded one", me.H)
+				return
+			}
+		}
+		for _, h := range e.M.Dead {
+			if pw.Alive(h) {
+				v = mk("%v was removed in the source world but is alive in the loaded one", h)
+				return
+			}
+		}
+		seen := map[ecs.Entity]bool{}
+		n := int(d.Available)*2 + 3
+		if n > 60 {
+			n = 60
+		}
+		for i := 0; i < n; i++ {
+			h := pw.NewEntity()
+			if h.IsZero() || seen[h] || e.M.Issued[h] {
+				v = mk("creation %d returned %v, a handle that was issued before", i, h)
+				return
+			}
+			if other, ok := e.M.ByID[h.ID()]; ok {
+				v = mk("creation %d returned %v, which shares its ID with alive entity %v", i, h, other.H)
+				return
+			}
+			seen[h] = true
+			if used := pw.Stats().Entities.Used; used != len(e.M.Alive)+i+1 {
+				v = mk("%d entities alive after %d creations on top of %d", used, i+1, len(e.M.Alive))
+				return
+			}
+		}
+		q := pw.Query(ecs.All())
+		if cnt := q.Count(); cnt != len(e.M.Alive)+n {
+			v = mk("query finds %d entities, expected %d", cnt, len(e.M.Alive)+n)
+		}
+		q.Close()
+	}()
+	if v == nil {
+		e.St.Probes["load-handle-probe"]++
+	}
+	return v
 }
 
 // checkPendingDump: the dump taken earlier must still be what it was, and loading it now reproduces the alive set
